@@ -178,6 +178,22 @@ def fresh_views(ctx, rule):
     ctx.check(ok, rule, cl.path, "clone:same-text", "a clone views the same text", detail=str(rets))
 
 
+def guards_stay_local(ctx, rule):
+    """A lock guard never outlives the call that took it: no type of the crate stores a
+    MutexGuard and no function returns one (a parked iterator or handle holding the lock would
+    block - or deadlock with - every other caller)."""
+    bad = []
+    for path, a in sorted(ctx.facts.adts.items()):
+        for v in a.get("variants", []):
+            for f in v.get("fields", []):
+                if "MutexGuard" in f["ty"] or "RwLock" in f["ty"] and "Guard" in f["ty"]:
+                    bad.append("%s.%s: %s" % (path, f["name"], f["ty"]))
+    for b in ctx.facts.local_fns():
+        if b.sig and "MutexGuard" in b.sig.split("->")[-1] and "->" in b.sig:
+            bad.append("%s returns %s" % (b.path, b.sig.split("->")[-1].strip()))
+    ctx.check(not bad, rule, "sourceview", "guard:not-stored", "no struct field and no return type of the crate holds a lock guard", detail=str(bad))
+
+
 def r5_monotone(ctx, rule="C15.R4"):
     """lines is append-only; the counter only grows."""
     ops = set()
@@ -352,6 +368,8 @@ def c15_r2_units(ctx, rule="C15.R2"):
     gb = gets[0][0]
     ctx.check(has_fact(b, gb, roles, ("Le", SUM, "cast<u64>(U)"), ("Le", "cast<usize>(%s)" % SUM, "U")), rule, fn, "result:only-when-long-enough",
               "a slice is returned only when the UTF-16 counter reached col + span (a line shorter than that yields None)", ctx.site(b, gb))
+    rets = [sh for sh, _, _ in q.def_shapes(b, 0, roles) if sh != "Option::None{}" and not sh.startswith("FromResidual::from_residual")]
+    ctx.check(len(rets) == 1 and rets[0].startswith("str::get("), rule, fn, "result:only-the-slice", "the only value ever returned is the slice cut by str::get (no shortcut answer, e.g. for an empty span)", detail=str(rets)[:200])
     nones = option_blocks(b, "None")
     ctx.check(bool(nones) and all(has_fact(b, nb, roles, ("Lt", "cast<u64>(U)", SUM), ("Lt", "U", "cast<usize>(%s)" % SUM)) for nb in nones), rule, fn, "none:only-when-short",
               "None is returned only when the line has fewer than col + span UTF-16 units (the test is in UTF-16 units, not bytes)")
